@@ -1834,6 +1834,11 @@ func (w *World) apply(tr string) bool {
 			default:
 			}
 		}
+	case "fastlink": // fastlink:<remote>  the link to this remote has been measured fast and long (see peer.VerifFastLink)
+		if r == nil || r.exited() {
+			return false
+		}
+		r.p.VerifFastLink()
 	case "gate": // gate:<remote>  from now on the peer's main loop takes only the arms the harness names
 		if r == nil || r.gated || r.exited() || !w.cfg.Gates {
 			return false
@@ -1878,6 +1883,9 @@ func (w *World) apply(tr string) bool {
 			return false
 		}
 		pc := peerCfg{Fast: arg(1)&1 != 0, Ext: arg(1)&2 != 0, DontHave: 7, Pex: 9, Metadata: 8}
+		if arg(1)&4 != 0 {
+			pc.ExtPort = 7777 // names another listening port than the one it was dialled on
+		}
 		w.addPeer(len(w.remotes), pc)
 	default:
 		panic("world: unknown transition " + tr)
